@@ -499,6 +499,47 @@ func c03HostileRandom(c *Ctx, idx int) {
 	c.Nontrivial(text, gen.Describe(data))
 }
 
+// integer-parameter lattice with multi-byte subjects (the offsets where byte and
+// code-point arithmetic diverge), watched for panics only
+func c03IntLattice(c *Ctx, idx int) {
+	subj := []string{"", "a", "éaéaéaéaéa", "日本語日本語", "aé𝌆b", "𝌆𝌆a𝌆", "ab,cd,,e", "\ufffdx\ufffd"}
+	ints := []string{"-9223372036854775808", "-7", "-3", "-1", "0", "1", "2", "3", "4", "5", "6", "7", "9", "12", "30", "2147483648", "9223372036854775807", "1.5", "1e1"}
+	forms := []string{"find_first(%s, %s, `%s`, `%s`)", "find_last(%s, %s, `%s`, `%s`)", "%s[%s:%s]|%s", "split(%s, %s, `%s`)|%s", "replace(%s, %s, 'é', `%s`)|%s", "pad_left(%s, `%s`, %s)|%s"}
+	n := len(subj) * len(ints) * len(ints)
+	f := forms[idx/n%len(forms)]
+	k := idx % n
+	s := subj[k%len(subj)]
+	k /= len(subj)
+	a, b := ints[k%len(ints)], ints[k/len(ints)%len(ints)]
+	sub := "'a'"
+	if strings.Contains(s, "本") {
+		sub = "'本'"
+	} else if strings.Contains(s, "𝌆") {
+		sub = "'𝌆'"
+	}
+	var text string
+	switch {
+	case strings.HasPrefix(f, "find_"):
+		text = fmt.Sprintf(f, ref.RawString(s), sub, a, b)
+	case strings.HasPrefix(f, "%s["):
+		if strings.ContainsAny(a+b, ".e") {
+			return
+		}
+		text = fmt.Sprintf("%s[%s:%s]", ref.RawString(s), a, b)
+	case strings.HasPrefix(f, "split"):
+		text = fmt.Sprintf("split(%s, %s, `%s`)", ref.RawString(s), sub, a)
+	case strings.HasPrefix(f, "replace"):
+		text = fmt.Sprintf("replace(%s, %s, 'é', `%s`)", ref.RawString(s), sub, a)
+	default:
+		if len(a) > 3 {
+			return
+		}
+		text = fmt.Sprintf("pad_left(%s, `%s`, %s)", ref.RawString(s), a, sub)
+	}
+	c.CheckNoPanic(text, nil, map[string]string{"family": "int-lattice"})
+	c.Nontrivial(text)
+}
+
 func init() {
 	Register(&Property{
 		ID:            "C03",
@@ -511,6 +552,7 @@ func init() {
 			{Name: "mutants", N: func(c *Ctx) int { return tierN(c, 60000, 1500000) }, Run: c03Mutants},
 			{Name: "hostile", N: c03HostileN, Run: c03Hostile},
 			{Name: "hostile-random", N: func(c *Ctx) int { return tierN(c, 40000, 800000) }, Run: c03HostileRandom},
+			{Name: "int-lattice", N: func(c *Ctx) int { return 8 * 19 * 19 * 6 }, Run: c03IntLattice, Exhaustive: true},
 			{Name: "long", N: func(c *Ctx) int { return 12 }, Run: c03Long, Exhaustive: true},
 			{Name: "nesting", N: c03NestN, Run: c03Nest, Exhaustive: true},
 			{Name: "pad-huge", N: func(c *Ctx) int { return len(c03PadHuge) }, Run: c03Pad, Exhaustive: true},
